@@ -27,6 +27,7 @@ thread can take a step, nothing is left in the pending map or the queue:
   critical sections of one lock.
 -/
 import RedunModel.Lemmas.MonitorPartialC
+import RedunModel.Lemmas.MonitorFault
 import RedunModel.Lemmas.MonitorLockedC
 namespace RedunModel.C10
 open RedunModel.Monitor
@@ -36,10 +37,11 @@ open RedunModel.Monitor
 /-- **Conservation.** Whatever the executor variant and the interleaving, every job of the input
 stream is in exactly one place (with multiplicity): not yet recorded by `_submit`, in the queue
 (arrayer / Glue pending queue), in the pending map the monitor polls, in the hands of a Glue
-submission thread, or reported to the scheduler. -/
+submission thread, reported to the scheduler, or `dropped`: removed from the pending map by a
+status-processing step that then hit an injected cloud error (see `fault_is_reported`). -/
 theorem conservation (V : Variant) (jobs : List Job) (s : State) (h : Reachable V jobs s) (j : Job) :
     jobs.count j = (rest s).count j + s.queue.count j + s.pending.count j + (inHand s).count j
-      + s.reported.count j := by
+      + s.reported.count j + s.dropped.count j := by
   have hC := reachable_invC h
   have h1 := hC.cons j
   have h2 := congrArg (List.count j) hC.prog
@@ -64,13 +66,14 @@ theorem reported_at_most_once (V : Variant) (jobs : List Job) (s : State) (h : R
 /-- **Partial: the exit window is the only way to lose a job** (Docker, AWS Batch, K8S, GCP Batch and
 every other variant with a well-formed exit path).  For distinct jobs and every interleaving in which
 no job was recorded while a monitor thread was on its way out (`hit = false`): when no thread can
-take a step any more, the pending map and the queue are empty. -/
+take a step any more, the pending map and the queue are empty (`faulted = false`: no cloud error was
+injected by the environment; with faults see `fault_is_reported`). -/
 theorem no_lost_job_partial (V : Variant) (hW : WF V) (jobs : List Job) (hd : jobs.Nodup) (s : State)
-    (h : Reachable V jobs s) (hh : s.hit = false) : lost s = [] := by
+    (h : Reachable V jobs s) (hh : s.hit = false) (hf : s.faulted = false) : lost s = [] := by
   unfold lost
   split
   · rename_i hq
-    have hI := reachable_invP hW hd h hh
+    have hI := reachable_invP hW hd h hh hf
     simp only [quiescent, Bool.and_eq_true, beq_iff_eq, List.all_eq_true] at hq
     obtain ⟨⟨⟨hdone, hmons⟩, _⟩, _⟩ := hq
     have hboth : s.pending = [] ∧ s.queue = [] := by
@@ -100,10 +103,41 @@ theorem no_lost_job_partial (V : Variant) (hW : WF V) (jobs : List Job) (hd : jo
 
 /-- and in those interleavings no monitor thread fails (`_process_job_status` always finds its job) -/
 theorem no_monitor_crash_partial (V : Variant) (hW : WF V) (jobs : List Job) (hd : jobs.Nodup) (s : State)
-    (h : Reachable V jobs s) (hh : s.hit = false) : ∀ m, s.mon = some m → ∀ r, m.ph ≠ .exc r := by
+    (h : Reachable V jobs s) (hh : s.hit = false) (hf : s.faulted = false) : ∀ m, s.mon = some m → ∀ r, m.ph ≠ .exc r := by
   intro m hm r
-  have := (reachable_invP hW hd h hh).noExc r
+  have := (reachable_invP hW hd h hh hf).noExc r
   simpa [lph, hm] using this
+
+/-- **An injected cloud error is never silent** (all five executors, every variant whose `except` path is
+not empty): whenever a status-processing step has removed a job from the pending map and then failed
+(throttling, any exception), a scheduler-level error has been raised (`reject_job(None, error)`) or a
+monitor thread is on its `except` path about to raise it; so once all threads have ended, dropped jobs
+imply a workflow error. -/
+theorem fault_is_reported (V : Variant) (hE : V.mExc ≠ []) (jobs : List Job) (s : State)
+    (h : Reachable V jobs s) (hq : quiescent s = true) (hd : s.dropped ≠ []) : 0 < s.crashes := by
+  have hQ := (reachable_invQ hE h).q
+  simp only [quiescent, Bool.and_eq_true, beq_iff_eq, List.all_eq_true] at hq
+  obtain ⟨⟨⟨_, hmons⟩, _⟩, _⟩ := hq
+  have hz : ∀ l : List Mon, (∀ m ∈ l, (!monAlive m) = true) → excCountL l = 0 := by
+    intro l hl
+    induction l with
+    | nil => rfl
+    | cons x r ih =>
+      have hx := hl x (by simp)
+      have hr := ih (fun m hm => hl m (by simp [hm]))
+      simp only [excCountL, List.map_cons, List.sum_cons] at hr ⊢
+      rw [hr]
+      simp only [monAlive, Bool.not_and, Bool.or_eq_true, Bool.not_eq_true', bne_eq_false_iff_eq] at hx
+      rcases hx with hx | hx <;> simp [excOf, hx]
+  have h1 := hz s.old (fun m hm => hmons m (by simp [State.mons, hm]))
+  have h2 := hz s.mon.toList (fun m hm => hmons m (by simp [State.mons]; right; simpa using hm))
+  have hl : 0 < s.dropped.length := List.length_pos_iff.2 hd
+  simp only [excCount, h1, h2] at hQ
+  omega
+
+/-- all five executors have a non-empty `except` path -/
+theorem exc_paths : docker.mExc ≠ [] ∧ awsBatch.mExc ≠ [] ∧ k8s.mExc ≠ [] ∧ gcpBatch.mExc ≠ [] ∧ glue.mExc ≠ [] := by
+  decide
 
 /-- the four executors the partial theorem applies to -/
 theorem wf_variants : WF docker ∧ WF awsBatch ∧ WF k8s ∧ WF gcpBatch :=
@@ -134,6 +168,11 @@ def schedGlue : List Ev := rep 10 .S ++ rep 13 (.U 0) ++ rep 14 (.M 0) ++ rep 7 
 /-- one job: the submission thread has popped it; the monitor's first loop test sees both containers
 empty, calls `stop()`; the submission thread then registers the job and ends. -/
 def schedGlueInHand : List Ev := rep 10 .S ++ rep 6 (.U 0) ++ rep 6 (.M 0) ++ rep 7 (.U 0)
+
+/-- non-vacuity of `fault_is_reported`: Docker, one job, the fault armed before its status is processed:
+the job is popped and not reported, and the monitor raises the scheduler-level error -/
+example : ∃ s, Reachable docker [0] s ∧ quiescent s = true ∧ s.dropped = [0] ∧ s.reported = [] ∧ s.crashes = 1 :=
+  ⟨run docker (init [0]) (rep 7 .S ++ [.F] ++ rep 30 (.M 0)), reachable_run _ _ _ _ Reachable.init, by decide⟩
 
 theorem refuted_docker :
     ∃ s, Reachable docker [0, 1] s ∧ quiescent s = true ∧ lost s = [1] ∧ s.reported = [0] ∧ s.flag = false :=
